@@ -314,6 +314,10 @@ def pawn_dirs(col):
     return [(d, 1), (d, -1)]
 
 
+def _contains_term(t, sub):
+    return any(x == sub for x in subterms(t))
+
+
 def r4_pawn_geometry(ctx):
     rule = 'C01.R4-pawn-geometry'
     facts = ctx.facts
@@ -332,6 +336,13 @@ def r4_pawn_geometry(ctx):
         tup = push[2][1]
         pawn_t, tgt_t = tup[4][0][1], tup[4][1][1]
         idx = [s for s in subterms(pawn_t) if s[0] == 'fld' and s[2] == 'Some.0']
+        scan = None
+        if not idx:
+            # bit-scan form: `while !rest.is_empty() { let pawn = rest.pop_lsb(); .. }`: the square index is trailing_zeros(rest)
+            tz = [s for s in subterms(pawn_t) if s[0] == 'call' and s[1] == 'trailing_zeros' and any(x[0] == 'lv' for x in subterms(s))]
+            if tz:
+                idx = [tz[0]]
+                scan = [x for x in subterms(tz[0]) if x[0] == 'lv'][0]
         bad = []
         try:
             for i in range(64):
@@ -348,6 +359,22 @@ def r4_pawn_geometry(ctx):
         # guard: only squares holding an own pawn
         guard = [c for c in o.conds if c[0][0] == 'bin' and c[0][1] == 'BitAnd' and not is_false(c[1])]
         gok = any(any(s[0] == 'fld' and s[2] == col.lower() for s in subterms(c[0])) and any(s[0] == 'idx' and s[2] == C(facts.variant_discr(PIECE_ADT, 'Pawn')) for s in subterms(c[0])) for c in guard)
+        if scan is not None:
+            # the scanned set starts as the own pawns, each round clears exactly the bit just visited, and the scan ends when it is empty
+            head = [e for e in o.events if e[0] == 'loop_head' and e[2] == scan[1]]
+            pre = head[0][3].get(scan[2]) if head else None
+            starts = pre is not None and any(s[0] == 'fld' and s[2] == col.lower() for s in subterms(pre)) and \
+                any(s[0] == 'idx' and s[2] == C(facts.variant_discr(PIECE_ADT, 'Pawn')) for s in subterms(pre))
+            nv = (o.locals or {}).get(scan[2])
+            clears = False
+            try:
+                clears = nv is not None and all(ev(nv, {('fld', scan, '0'): x, scan: x, idx[0]: (x & -x).bit_length() - 1}) == x & (x - 1)
+                                                for x in (1, 0x8000000000000000, 0x00ff00000000ff00, 0x0000001008000000, 0xffffffffffffffff))
+            except Unevaluable:
+                clears = False
+            exits = [x for x in outs if x.kind == 'return' and any(e[0] == 'loop_head' and e[2] == scan[1] for e in x.events)]
+            ends = bool(exits) and all(any(_contains_term(a, scan) and (is_false(v) or v == 0) for a, v in x.conds) for x in exits)
+            gok = starts and clears and ends
         ctx.ob(rule, name, '%s: attack set of a pawn on each of 64 squares = its two forward diagonals, no file wrap' % col, not bad and gok,
                found={'differences': bad[:4], 'iterates own pawns': gok}, expected='{(+-1 rank, +-1 file)} on board',
                why='a missing wrap mask lets a pawn on the a/h-file attack across the board edge')
